@@ -63,7 +63,7 @@ comp('_expit', 'scipy.special.expit', lambda xs, f0: SI.bfwf(xs, _expit_fp(xs, Z
 # ---- wrappers of the Faa di Bruno helper: postcondition = the helper's contract instantiated with the right derivative family
 class FaaWrapper(Contract):
     arrays = ('x_data', 'out'); modifies = ('out',); returns = 'out'; cfgs = {'distinct': {}}
-    bounded_D = (1, 2, 3, 4, 5); property_ids = ('C01', 'C14')
+    bounded_D = (1, 2, 3, 4); property_ids = ('C01', 'C14')
     tag = None; pre_scalars = ()
     def requires(self, c): return []
     def ensures(self, c):
